@@ -20,7 +20,23 @@ const (
 
 type MMap []byte
 
-var paths = map[uintptr]string{}
+var (
+	paths = map[uintptr]string{}
+	live  = map[uintptr]mmap.MMap{}
+)
+
+// ReleaseAll unmaps every mapping the code under test left behind (an abandoned instance after a panic, a failed
+// Open that did not release what it had mapped): the next execution of the same process starts without them, so a
+// long exploration cannot run into the per-process mapping limit. Returns how many there were.
+func ReleaseAll() int {
+	n := len(live)
+	for k, m := range live {
+		m.Unmap()
+		delete(live, k)
+		delete(paths, k)
+	}
+	return n
+}
 
 func key(m MMap) uintptr {
 	if len(m) == 0 {
@@ -50,6 +66,7 @@ func MapRegion(f *vos.File, length int, prot, flags int, offset int64) (MMap, er
 		return nil, err
 	}
 	paths[key(MMap(out))] = name
+	live[key(MMap(out))] = out
 	return MMap(out), nil
 }
 
@@ -69,6 +86,7 @@ func (m *MMap) Unmap() error {
 		*m = MMap(r)
 		if err == nil {
 			delete(paths, k)
+			delete(live, k)
 		}
 		return err
 	})
